@@ -107,8 +107,18 @@ Definition distance_wscale (obs sig : tcp_sig) : option N :=
   high_or tq_medium (is_none (t_wscale sig) || option_eqb N.eqb (t_wscale obs) (t_wscale sig)).
 Definition distance_olayout (obs sig : tcp_sig) : option N :=
   if list_eqb tcp_option_eqb (t_olayout obs) (t_olayout sig) then Some tq_high else None.
+(* closure `applies` of distance_quirks (fix c12quirksv6): which of the SIGNATURE's quirks take part in the
+   comparison for an observation of IP version v *)
+Definition quirk_compared (v : ip_version) (q : quirk) : bool :=
+  match v with
+  | IpV6 => match q with QDf | QNonZeroID | QZeroID | QMustBeZero => false | _ => true end
+  | IpV4 => match q with QFlowID => false | _ => true end
+  | IpAny => true
+  end.
+(* `self.quirks.iter().eq(other.quirks.iter().filter(applies))`: the observed list against the filtered signature list *)
 Definition distance_quirks (obs sig : tcp_sig) : option N :=
-  if list_eqb quirk_eqb (t_quirks obs) (t_quirks sig) then Some tq_high else None.
+  if list_eqb quirk_eqb (t_quirks obs) (filter (quirk_compared (t_version obs)) (t_quirks sig))
+  then Some tq_high else None.
 
 (* <tcp::Signature as DatabaseSignature<TcpObservation>>::calculate_distance: the `?`s are evaluated in
    this order, the saturating additions associate to the left *)
